@@ -280,7 +280,7 @@ func drawC09(rt *rapid.T) (c09Case, string) {
 	case "mutation", "valid", "dirty-twin", "repeat", "case-twin", "bad-operand":
 		o := avOpts(2, false)
 		it := richItem(rt, o)
-		ctx := gen.NewExprCtx(it, o)
+		ctx := gen.NewExprCtx(it, o).Style(rt)
 		var text string
 		var condAST model.Expr
 		var updAST model.Update
